@@ -610,7 +610,7 @@ def machine(holder):
 
 def tasks(tier):
     return [
-        Task("faults", strategy=scenario_st(tier), run=run_faults, examples={"quick": 1000, "thorough": 16000}),
-        Task("nesting", machine=machine, run=run_nesting, examples={"quick": 2000, "thorough": 24000},
+        Task("faults", strategy=scenario_st(tier), run=run_faults, examples={"quick": 1000, "thorough": 10000}),
+        Task("nesting", machine=machine, run=run_nesting, examples={"quick": 2000, "thorough": 16000},
              steps={"quick": 14, "thorough": 24}),
     ]
